@@ -4,7 +4,7 @@ package main
 // (lib/common/table; harness/trans_units_tablerender.go) adds to the prelude (lean/Knut/GoSem/TableFmt.lean, Csv.lean) against the
 // real Go packages:
 //   (*color.Color).Fprintf of github.com/fatih/color with color.NoColor on and off and with colours created while NO_COLOR is set;
-//   make([]int, n) for n from -3 on; one record through encoding/csv (fields with quotes, commas, line breaks, leading Unicode
+//   make([]int, n) for n from -3 on; the capacity of make([]T, 0, n) after appends that fit (Slices.appendCap); one record through encoding/csv (fields with quotes, commas, line breaks, leading Unicode
 //   spaces, `\.`); a csv.Writer over a sink: what the sink holds after the records and Flush, and — without Flush — that nothing
 //   reaches it while at most 4096 bytes are pending (the limit of `Csv.Writer.dropped`).
 
@@ -113,6 +113,24 @@ func runGoSemTableStream(c *Ctx, n int) {
 			return itoa(len(xs))
 		}()
 		cmp(i, "makeslice", map[string]any{"n": ln}, mk, "makeslice", itoa(ln))
+		// ---- the capacity of make([]T, 0, n) under append: kept while the elements fit, the runtime's afterwards
+		cp, apps := r.Range(-2, 9), r.Range(0, 12)
+		capGot := func() (res string) {
+			defer func() {
+				if recover() != nil {
+					res = "panic"
+				}
+			}()
+			xs := make([]any, 0, cp)
+			for k := 0; k < apps; k++ {
+				xs = append(xs, k)
+			}
+			if apps > cp {
+				return "unknown" // reallocated: whatever the runtime chose
+			}
+			return itoa(cap(xs))
+		}()
+		cmp(i, "appendcap", map[string]any{"cap": cp, "appends": apps}, capGot, "appendcap", itoa(cp), itoa(apps))
 		// ---- one record through encoding/csv
 		var rec []string
 		for k := r.Range(0, 5); k > 0; k-- {
